@@ -46,7 +46,9 @@ ALL_OPTS = BOOL_CODES + BOOL_OPTS + INT_OPTS + LIST_OPTS
 # codes that are only touched through disable_all
 PROBE_CODES = ["undefined_attribute", "use_fstrings"]
 MODULES = ["a", "a.b", "a.b.c", "x", "a.x"]
-PATHS = [(), ("a",), ("a", "b"), ("a", "b", "c"), ("a", "b", "c", "d"), ("x", "y"), ("z",), ("a", "x")]
+PATHS = [(), ("a",), ("a", "b"), ("a", "b", "c"), ("a", "b", "c", "d"), ("x", "y"), ("z",), ("a", "x"),
+         # share a textual prefix with an override module without being inside it
+         ("ab",), ("a", "bc"), ("a", "b", "cd"), ("xy",), ("a", "xb", "c")]
 ALL_CODE_NAMES = {c.name for c in ErrorCode}
 
 
